@@ -6,7 +6,7 @@ P = {
     "design_ref": "DESIGN.md section 3 C01",
     "sources": ["harness/props/C01.cpp"],
     "ldflags": ["-lyaml-cpp"],
-    "rule": "random scenarios: type in 8 types, dims 1..4 (rectangular where the type allows), m or a/b, 1..4 frequencies, random error box per frequency from vnamodel (structure allowed by the type), standards = sufficient baseline (3 distant reflects per diagonal port, through/line/mapped 2-port between every diagonal port and every other port, random full P-port standards for 16-term types) + 0..3 extras, shuffled, sufficiency and conditioning confirmed by the model's Jacobian identifiability test (kappa < 1e5); non-trivial = a/b form, rectangular shape, >= 2 frequencies, abbreviated measurement matrix, entry point other than mapped_matrix, permuted port map or vector standard; distinct = distinct choice tapes",
+    "rule": "random scenarios: type in 8 types, dims 1..4 (rectangular where the type allows), m or a/b, 1..4 frequencies, random error box per frequency from vnamodel (structure allowed by the type), standards = sufficient baseline (3 distant reflects per diagonal port, through/line/mapped 2-port between every diagonal port and every other port, random full P-port standards for 16-term types) + 0..3 extras, shuffled, sufficiency and conditioning confirmed by the model's Jacobian identifiability test (kappa < 1e5); non-trivial = a/b form, rectangular shape, >= 2 frequencies, abbreviated measurement matrix, entry point other than mapped_matrix, permuted port map or vector standard; distinct = distinct choice tapes; a third of the cases create 6..40 unrelated parameters first and delete a random run of them (sparse / recycled handles)",
     "assumptions": COMMON_ASSUME + ["vnamodel.hpp (M = El + Er (I - S Em)^-1 S Et with the per-type sparsity and per-column switch terms) spans the error networks each type can represent", "tolerance CTOL*eps*kappa_J*10 with CTOL = 1e4 (calibrated: largest observed ratio < 1)"],
     "tiers": tiers(
         quick=[{"name": "rand", "mode": "run", "count": 500, "max_size": 60, "shards": 16, "max_seconds": 75, "shrink_seconds": 60}],
